@@ -245,9 +245,31 @@ func mergeStringMaps(src, dest map[string]any) {
 			}
 			continue
 		}
-		// Otherwise, set the value directly
-		dest[srcKey] = srcValue
+		// Otherwise, set the value directly. Nested maps and slices are copied
+		// so that dest never shares them with src: a later merge into dest
+		// must not write through to src (or to other configs merged from src).
+		dest[srcKey] = copyMapValue(srcValue)
 	}
+}
+
+// copyMapValue returns a deep copy of the nested maps and slices of a
+// `map[string]any` value.
+func copyMapValue(v any) any {
+	switch t := v.(type) {
+	case map[string]any:
+		c := make(map[string]any, len(t))
+		for key, elem := range t {
+			c[key] = copyMapValue(elem)
+		}
+		return c
+	case []any:
+		c := make([]any, len(t))
+		for i, elem := range t {
+			c[i] = copyMapValue(elem)
+		}
+		return c
+	}
+	return v
 }
 
 // mergeConfigs merges the values from c1 into c2.
